@@ -312,6 +312,18 @@ int16_t COTmrDelete(CO_TMR *tmr, int16_t actId)
         }
     }
 
+    /* not found: action may wait for its callback in running COTmrProcess() */
+    if (del == 0) {
+        act = &((CO_TMR_MEM *)tmr->APool)[actId].Act;
+        if (act->Func != (CO_TMR_FUNC)0) {
+            /* cancel: COTmrProcess() frees the action without callback */
+            act->CycleTicks = 0;
+            act->Para       = 0;
+            act->Func       = (CO_TMR_FUNC)0;
+            result          = 0;
+        }
+    }
+
     CO_VERIF_YIELD(12);
     /* delete action */
     if (del != 0) {
@@ -445,7 +457,9 @@ void COTmrProcess(CO_TMR *tmr)
             }
             /* execute callback function */
             CO_VERIF_YIELD(27);
-            func(para);
+            if (func != (CO_TMR_FUNC)0) {
+                func(para);
+            }
             CO_VERIF_YIELD(28);
             act = next;
         }
